@@ -12,7 +12,8 @@ Terms (prefix notation, tokens separated by blanks; numbers hex without 0x excep
 
 Requests (sections separated by ` | `):
     decode <S|G> <current|fixed> | <reg> | <term> | <env>
-        reg = `<hashvalue> <term>` pairs separated by `;` (the local KeccakRegistry in registration order; `-` if empty)
+        reg = `<hashvalue> <term>` pairs separated by `;` (the local KeccakRegistry in registration order; `-` if empty);
+              `c:<value> <term>` = an entry of the path's concretization (used by int_of on the base slot only)
         env = `<id>=<value>` pairs separated by blanks (`-` if empty); the hash function is the real Keccak-256
         reply  S:  ok <slot> <w>:<v> <w>:<v> …      the decoded tuple evaluated under env (slot, then the keys)
                G:  ok <w>:<v>                       the decoded term: width and value
@@ -109,7 +110,13 @@ def parseReg (s : String) : Option (OffsetMap LTerm × List (LTerm × Nat)) :=
   if s = "-" then some (OffsetMap.empty HalmosVerif.Gen.HashTables.offsetBits, []) else
   (s.splitOn ";").foldlM (fun (m, l) e =>
     match toks e with
-    | h :: rest => do
+    | h :: rest =>
+      -- `c:<value> <term>`: an entry of the path's concretization only (term == constant), not a registered hash
+      if h.startsWith "c:" then
+        match hexNat? (h.drop 2).toString, parseTerm 10000 rest with
+        | some v, some (t, []) => some (m, (t, v) :: l)
+        | _, _ => none
+      else do
       let h ← hexNat? h
       match parseTerm 10000 rest with
       | some (t, []) => some (precomputed.insertRaw m h t, (t, h) :: l)
